@@ -12,13 +12,17 @@ def sh(cmd, **kw):
 def main():
     args = sys.argv[1:]
     allc = "--all-checks" in args
-    names = [a for a in args if not a.startswith("--")] or sorted(os.listdir(os.path.join(ROOT, "seeded")))
+    names = [a for a in args if not a.startswith("--")] or sorted(n for n in os.listdir(os.path.join(ROOT, "seeded")) if os.path.isdir(os.path.join(ROOT, "seeded", n)))
     os.makedirs("/tmp/mx", exist_ok=True)
     sh(f"git -C /repo worktree remove --force {WT}")
     shutil.rmtree(WT, ignore_errors=True)
     r = sh(f"git -C /repo worktree add -q --detach {WT} HEAD")
     if r.returncode: print(r.stdout); return 2
     env = dict(os.environ, VERIF_REPO=WT, VERIF_BUILD="/tmp/mx/build", VERIF_OUT="/tmp/mx/out")
+    # the checks run from a snapshot of /verif taken now, so that work in /verif during the (long) run cannot disturb it
+    SNAP = "/tmp/mx/verif"
+    shutil.rmtree(SNAP, ignore_errors=True)
+    sh(f"rsync -a --exclude build --exclude replays --exclude .git {ROOT}/ {SNAP}/")
     props = sorted(json.loads(l)["id"] for l in open(os.path.join(ROOT, "properties.jsonl")))
     try:
         for name in names:
@@ -30,7 +34,7 @@ def main():
                 print(name, "PATCH DOES NOT APPLY", r.stdout[:200]); continue
             det = {}
             for p in (props if allc else [target] + [x for x in meta.get("also_check", []) if x != target]):
-                r = subprocess.run(["python3", os.path.join(ROOT, "check.py"), p, "--tier", "quick"], env=env, stdout=subprocess.PIPE, stderr=subprocess.STDOUT, text=True, cwd=ROOT)
+                r = subprocess.run(["python3", os.path.join(SNAP, "check.py"), p, "--tier", "quick"], env=env, stdout=subprocess.PIPE, stderr=subprocess.STDOUT, text=True, cwd=SNAP)
                 keys = re.findall(r"^  key=(.*)$", r.stdout, re.M)
                 det[p] = dict(rc=r.returncode, violations=len(keys), first_keys=keys[:3])
             sh(f"git -C {WT} checkout -- . && git -C {WT} clean -fdq")
